@@ -109,6 +109,8 @@ def cosmo_of(name):
 
     if name == "curved":
         return ac.LambdaCDM(H0=70.0, Om0=0.3, Ode0=0.9)
+    if name == "h100":  # shorter distances than the default cosmology: larger angles for the same physical scale
+        return ac.FlatLambdaCDM(H0=100.0, Om0=0.3)
     return getattr(ac, name or "Planck15")
 
 
